@@ -25,11 +25,13 @@ ASSUMPTIONS = [
     "documented pKa: C 8.5, Y 10.1, H 6.5, E 4.1, D 3.9, K 10.0, R 12.5; positive K,R,H; negative D,E,C,Y",
     "values agree to 1e-9 relative + 1e-12 absolute; monotonicity slack 1e-12; pI neutrality |q| <= 0.02 + 1e-12 on "
     "the reference mean charge per titratable residue",
+    "pH is given as Python int/float or numpy float64/int64; lower-precision numpy types (float32/float16) are not "
+    "driven: their results carry that precision, about which the statement says nothing",
     "termination of the pI search is restated as bounded progress: at most 100000 line events inside the library's "
     "isoelectric_point function per call; NaN / non-numeric pH is not judged (statement speaks of values outside [0,14])",
 ]
 REQUIRED = {"all": ["sweep_points", "pH_zero_points", "pH_fourteen_points", "rejected_out_of_range", "pI_calls",
-                    "pI_outside_0_14", "pI_nothing_titrates", "pI_reused_as_pH"]}
+                    "pI_outside_0_14", "pI_nothing_titrates", "pI_reused_as_pH", "numpy_pH_values"]}
 NRANDOM = {"quick": 1200, "thorough": 6000}
 NPH = {"quick": 40, "thorough": 90}
 HI = {"quick": 150, "thorough": 400}
@@ -100,6 +102,9 @@ def judge(case, rep, S):
     tier_n = NPH.get(_tier[0], 40)
     phs = [0, 0.0, -0.0, 14, 14.0, 7, 7.4, 1, 13] + [rng.uniform(0, 14) for _ in range(tier_n - 14)] + \
           [M.PKA[k] for k in ("H", "K", "E")] + [round(rng.uniform(0, 14), 1), rng.randint(0, 14)]
+    np = S["np"]
+    phs += [np.float64(rng.uniform(0, 14)), np.int64(rng.randint(0, 14)), np.float64(rng.randint(0, 28) / 2.0), np.float64(0.0), np.int64(14)]
+    rep.cnt("numpy_pH_values", 5)
     rng.shuffle(phs)
     pi_at = rng.randrange(len(phs))
     trace = []          # (pH, ncpr) for the monotonicity checker
